@@ -136,6 +136,28 @@ def replay(prop, path, quiet=False):
     return 0
 
 
+def sweep_stale_sandboxes():
+    """Remove sandboxes left behind by killed workers (owner process no longer alive)."""
+    import re
+    import shutil
+    from sim import world
+    base = world.scratch_base()
+    try:
+        names = os.listdir(base)
+    except OSError:
+        return
+    for n in names:
+        m = re.match(r"hsv-(\d+)-", n)
+        if not m:
+            continue
+        try:
+            os.kill(int(m.group(1)), 0)
+        except ProcessLookupError:
+            shutil.rmtree(os.path.join(base, n), ignore_errors=True)
+        except PermissionError:
+            pass
+
+
 def main():
     ap = argparse.ArgumentParser()
     ap.add_argument("prop")
@@ -153,6 +175,7 @@ def main():
     seed = a.seed if a.seed is not None else int(os.environ.get("VERIF_SEED", "20261004"))
     tier = a.tier
     print("check %s tier=%s VERIF_SEED=%d repo=%s" % (prop, tier, seed, os.environ.get("VERIF_REPO", "/repo")))
+    sweep_stale_sandboxes()
     t0 = time.time()
     parts = registry.parts(prop)
     ncpu = os.cpu_count() or 4
